@@ -156,6 +156,14 @@ Section Accessor.
     | (k, v) :: kvs' => if has_key k st then None else write_kvs kvs' (st ++ [(k, v)])
     end.
 
+  (* onlineaccounts (address, updround) / onlineroundparamstail (rnd) primary keys: the rows are opaque
+     here, so only an IDENTICAL row counts as a key violation *)
+  Fixpoint write_rows (rows : list bytes) (st : list bytes) : option (list bytes) :=
+    match rows with
+    | [] => Some st
+    | r :: rows' => if existsb (beqb r) st then None else write_rows rows' (st ++ [r])
+    end.
+
   Definition process_section (s : section) (a : astate) : option astate :=
     match s with
     | SOther => Some a
@@ -177,12 +185,13 @@ Section Accessor.
                  match check_records bals (a_expect a) (a_cnt a) with
                  | None => None
                  | Some (expect', cnt') =>
-                     match write_balances bals (a_accts a) (a_res a), write_kvs kvs (a_kvs a) with
-                     | Some (accts', res'), Some kvs' =>
+                     match write_balances bals (a_accts a) (a_res a), write_kvs kvs (a_kvs a),
+                           write_rows oa (a_oa a), write_rows orp (a_orp a) with
+                     | Some (accts', res'), Some kvs', Some oa', Some orp' =>
                          Some (mkA true (a_version a) (a_blkround a) (a_totals a) expect' cnt' accts' res' kvs'
-                                   (a_oa a ++ oa) (a_orp a ++ orp) (a_sp a)
+                                   oa' orp' (a_sp a)
                                    (a_hashes a ++ flat_map record_hashes bals ++ map (fun e => leafK (fst e) (snd e)) kvs))
-                     | _, _ => None
+                     | _, _, _, _ => None
                      end
                  end
              end
